@@ -21,7 +21,7 @@ ID = "C14"
 RULE = ("all states of a 2-object universe (p/1, q/2, z/0; f/1, g/0 over 3 values; 3456 states) each built along a "
         "route chosen by its index (problem parser, trajectory parser, direct construction in permuted insertion "
         "order, copy, successor of a neighbouring state), compared pairwise in blocks (all ordered pairs of each "
-        "block), plus random larger states over a 3-object universe with a binary fluent, -0.0 produced by an effect "
+        "block), plus random larger states over a 3-object universe with a binary fluent, values of 1-15 significant digits and magnitudes 1e-14..1e21 (pairs also one relative step of 1e-3..1e-13 apart), -0.0 produced by an effect "
         "and repeated arguments.  Non-trivial = a pair that differs in exactly one fact or one value, or an equal "
         "pair built by two different routes.  Distinct by (state pair, routes).")
 ASSUMPTIONS = ["fluent values are floats (as every parser of the library produces them)"]
@@ -251,11 +251,22 @@ def check_case(case):
     return res
 
 
+def gen_value(ch):
+    """A decimal with 1-15 significant digits and a magnitude between 1e-14 and 1e21 (exactly recoverable from
+    the shortest text of its float, so distinct decimals are distinct values)."""
+    nd = ch.int(1, 15)
+    m = int(str(ch.int(1, 9)) + "".join(ch.choice("0123456789") for _ in range(nd - 1)))
+    v = Fraction(m) * Fraction(10) ** ch.int(-14 - (nd - 1), 7)
+    return -v if ch.flag(0.3) else v
+
+
 def gen(ch, tier):
     objects = [["a", "t"], ["b", "t"], ["c", "t"]]
     world = pddl.World(DOM, objects)
     atoms, fls = sorted(world.ground_atoms()), sorted(world.ground_fluents())
     vals = [Fraction(x) for x in ["0", "1", "-1.5", "2.25", "1000000", "0.1", "-0.001", "3"]]
+    if ch.flag(0.5):
+        vals = vals[:3] + [gen_value(ch) for _ in range(5)]
     facts = frozenset(a for a in atoms if ch.flag(0.4))
     fl = {k: ch.choice(vals) for k in fls if ch.flag(0.7)}
     s1 = (facts, fl)
@@ -266,7 +277,10 @@ def gen(ch, tier):
         f2 ^= {a}
     elif kind == "one-value" and fl2:
         k = ch.choice(sorted(fl2))
-        fl2[k] = fl2[k] + ch.choice([Fraction(1), Fraction(1, 10 ** 6), Fraction(-1, 2)])
+        rel = fl2[k] * Fraction(1, 10 ** ch.int(3, 13)) if fl2[k] else Fraction(1, 10 ** 9)
+        fl2[k] = fl2[k] + ch.choice([Fraction(1), Fraction(1, 10 ** 6), Fraction(-1, 2), rel, rel])
+        if Fraction(repr(float(fl2[k]))) != fl2[k]:          # keep the value exactly recoverable from its float
+            fl2[k] = Fraction(repr(float(fl2[k])))
     elif kind == "drop-fluent" and fl2:
         del fl2[ch.choice(sorted(fl2))]
     elif kind == "other":
